@@ -61,7 +61,8 @@ def run_case(rs, ctx):
         f0 = ops[0]
         f0["d"] = [a if a != cold else gen.pick(rs, trained) for a in f0["d"]]
         if l != "pop":
-            f0["r"] = [-abs(v) - 0.125 for v in f0["r"]]
+            # far enough below zero that no exploration bonus of UCB1 (alpha <= 2.25, <= 20 rows) lifts a trained arm above the cold one
+            f0["r"] = [-abs(v) - 0.125 - (8.0 if l == "ucb" else 0.0) for v in f0["r"]]
         sh2 = gen.Shadow(cfg, nf)
         sh2.fitted = True
         q1 = gen.gen_ops(rs, cfg, sh2, 1, ["predict"])
